@@ -7,7 +7,16 @@
 (***************************************************************************)
 EXTENDS Kv
 
+\* a read through a read transaction opens the table first: if that fails (the table does not exist in
+\* the snapshot, or has another kind / other types) the call reports exactly that error
+RdErr(R) ==
+  IF ~("src" \in DOMAIN R) \/ R.src = "w" \/ ~("kind" \in DOMAIN R) \/ ~SrcOk(R.src) THEN ""
+  ELSE LET T == Tables(R.src) IN
+       IF R.n \notin DOMAIN T THEN "TableDoesNotExist" ELSE MatchErr(T, R.n, R.kind, R.kt, R.vt, TRUE)
+
 Do(R) ==
+  \/ /\ R.e \in {"get", "len", "edge", "range", "mget", "mrange"} /\ RdErr(R) # ""
+     /\ IsE(R.r, RdErr(R)) /\ UNCHANGED kvVars
   \/ R.e = "bw"      /\ BeginWrite(R.r)
   \/ R.e = "dur"     /\ SetDurability(R.d, R.r)
   \/ R.e = "cbegin"  /\ CommitBegin
@@ -23,10 +32,10 @@ Do(R) ==
   \/ R.e = "rename"  /\ Rename(R.a, R.b, R.kind, R.r)
   \/ R.e = "delete"  /\ Delete(R.a, R.kind, R.r)
   \/ R.e = "list"    /\ List(R.src, R.kind, R.r)
-  \/ R.e = "get"     /\ Get(R.src, R.n, R.k, R.r)
-  \/ R.e = "len"     /\ LenOp(R.src, R.n, R.r)
-  \/ R.e = "edge"    /\ Edge(R.src, R.n, R.last, R.r)
-  \/ R.e = "range"   /\ RangeOp(R.src, R.n, R.lo, R.hi, R.cnt, R.rev, R.alt, R.r)
+  \/ R.e = "get" /\ RdErr(R) = ""     /\ Get(R.src, R.n, R.k, R.r)
+  \/ R.e = "len" /\ RdErr(R) = ""     /\ LenOp(R.src, R.n, R.r)
+  \/ R.e = "edge" /\ RdErr(R) = ""    /\ Edge(R.src, R.n, R.last, R.r)
+  \/ R.e = "range" /\ RdErr(R) = ""   /\ RangeOp(R.src, R.n, R.lo, R.hi, R.cnt, R.rev, R.alt, R.r)
   \/ R.e = "ins"     /\ Insert(R.n, R.k, R.v, R.r)
   \/ R.e = "insr"    /\ InsertReserve(R.n, R.k, R.v, R.r)
   \/ R.e = "getmut"  /\ GetMut(R.n, R.k, R.v, R.r)
@@ -38,9 +47,9 @@ Do(R) ==
   \/ R.e = "mins"    /\ MInsert(R.n, R.k, R.v, R.r)
   \/ R.e = "mrem"    /\ MRemove(R.n, R.k, R.v, R.r)
   \/ R.e = "mremall" /\ MRemoveAll(R.n, R.k, R.r)
-  \/ R.e = "mget"    /\ MGet(R.src, R.n, R.k, R.r)
-  \/ R.e = "mrange"  /\ MRange(R.src, R.n, R.lo, R.hi, R.rev, R.r)
-  \/ R.e = "hold"    /\ Hold(R.it, R.src, R.n, R.lo, R.hi)
+  \/ R.e = "mget" /\ RdErr(R) = ""    /\ MGet(R.src, R.n, R.k, R.r)
+  \/ R.e = "mrange" /\ RdErr(R) = ""  /\ MRange(R.src, R.n, R.lo, R.hi, R.rev, R.r)
+  \/ R.e = "hold"    /\ Hold(R.it, R.src, R.n, R.lo, R.hi, R.r)
   \/ R.e = "itnext"  /\ ItNext(R.it, R.cnt, R.rev, R.r)
   \/ R.e = "itdrop"  /\ ItDrop(R.it)
   \/ R.e = "spe"     /\ EphSavepoint(R.s, R.r)
